@@ -257,7 +257,7 @@ pub struct DataSpec {
 
 pub fn data_spec() -> BoxedStrategy<DataSpec> {
     (
-        prop_oneof![5 => Just(0u8), 2 => Just(1u8), 1 => Just(2u8), 1 => Just(3u8), 2 => Just(4u8)],
+        prop_oneof![10 => Just(0u8), 4 => Just(1u8), 2 => Just(2u8), 2 => Just(3u8), 4 => Just(4u8), 2 => Just(5u8), 1 => Just(6u8)],
         any::<u64>(),
     )
         .prop_map(|(mode, seed)| DataSpec { mode, seed })
@@ -309,6 +309,27 @@ impl DataSpec {
                         rng.fill(&mut s);
                     }
                     out.push(s.clone());
+                }
+            }
+            // block-sparse: every 64-byte block of every shard is all-zero with probability 1/2
+            5 => {
+                for _ in 0..k {
+                    let mut s = vec![0u8; b];
+                    for blk in s.chunks_mut(64) {
+                        if rng.below(2) == 0 {
+                            rng.fill(blk);
+                        }
+                    }
+                    out.push(s);
+                }
+            }
+            // zero prefix: the first 1..3 blocks of every shard are zero, the rest random
+            6 => {
+                for _ in 0..k {
+                    let mut s = vec![0u8; b];
+                    let z = (64 * (1 + rng.below(3))).min(b);
+                    rng.fill(&mut s[z..]);
+                    out.push(s);
                 }
             }
             // special symbols 0x0000 / 0x0001 / 0xFFFF / random
@@ -491,6 +512,27 @@ impl RecvSpec {
                 let mut ng = 0usize;
                 // outliers: last recovery, last original, first recovery, neighbours of powers of two
                 let mut cand: Vec<usize> = vec![total - 1, k - 1, k, 0];
+                // shards that sit on power-of-two positions of the working space: low-rate layout
+                // (recovery at next_pow2(k) + j) and high-rate layout (originals at next_pow2(r) + i)
+                let (cl, ch) = (k.next_power_of_two(), r.next_power_of_two());
+                for a in 1..=16u32 {
+                    let p = 1usize << a;
+                    for q in [p - 1, p] {
+                        if q >= cl && q - cl < r {
+                            cand.push(k + (q - cl));
+                        }
+                        if q >= ch && q - ch < k {
+                            cand.push(q - ch);
+                        }
+                        // multiples of the chunk size minus one / plus zero
+                        if a <= 6 {
+                            let m = cl * a as usize;
+                            if m >= cl && m - cl < r {
+                                cand.push(k + (m - cl));
+                            }
+                        }
+                    }
+                }
                 for a in [6u32, 8, 10, 11, 12, 13, 14] {
                     let p = 1usize << a;
                     for d in [p - 1, p, p + 1] {
@@ -503,8 +545,8 @@ impl RecvSpec {
                     }
                 }
                 let n_out = (1 + rng.below(3)).min(n.saturating_sub(1));
-                // the far end first, then seeded picks
-                let mut outs = vec![if self.pattern == 8 { total - 1 } else { 0 }];
+                // the far end first (half of the time), then seeded picks
+                let mut outs = if rng.below(2) == 0 { vec![if self.pattern == 8 { total - 1 } else { 0 }] } else { vec![cand[rng.below(cand.len())]] };
                 while outs.len() < n_out {
                     outs.push(cand[rng.below(cand.len())]);
                 }
@@ -636,7 +678,7 @@ pub fn count_class(k: usize, r: usize) -> &'static str {
 
 /// very few, very long shards: 64 KiB .. 4 MiB, log-uniform, any residue
 pub fn long_shard_cfg() -> BoxedStrategy<Cfg> {
-    (1usize..=3, 1usize..=3, 64u32..=88, 0usize..4096)
+    (1usize..=5, 1usize..=5, 64u32..=88, 0usize..4096)
         .prop_map(|(k, r, q, jitter)| {
             let bytes = 2f64.powf(q as f64 / 4.0) as usize; // 2^16 .. 2^22
             Cfg { k, r, b: (bytes + jitter * 2) / 2 * 2 }
